@@ -202,6 +202,14 @@ def moveStep (inp : Input) (ob : Obs) : Bool :=
 
 def ok (inp : Input) (ob : Obs) : Bool := removal inp ob && moveStep inp ob
 
+/-- the series-with-rate function never rounds a limit down (hypothesis of the move-step theorem;
+    the real one multiplies by a rate ≥ 1.0; the driver tags inputs for which this fails) -/
+def swrOK (swr : Swr) (o : Opt) : Bool :=
+  decide (o.maxProc ≤ swr o.maxProc 10) && Gen.headThresholds.all fun p => decide (o.maxHead ≤ swr o.maxHead p.1)
+
+/-- status lists come from JSON maps: one entry per hash -/
+def nodupKeys (inp : Input) : Bool := inp.probes.all fun p => (reported p).keys.eraseDups.length == (reported p).keys.length
+
 def clause (inp : Input) (ob : Obs) : String :=
   if !removal inp ob then "removal" else if !moveStep inp ob then "moveStep" else ""
 
